@@ -169,15 +169,20 @@ func buildC05(s *c05Sched) *flamego.Flame {
 		final := func(c flamego.Context, v c05ReqVal, req *http.Request, w http.ResponseWriter, nm c05Namer) { // reflective path
 			p := c.Params()
 			body, _ := c.Request().Body().String()
-			out := fmt.Sprintf("kind=%s;tok=%s;hdr=%s;inj=%s;route=%s;url=%s;n=%s;rest=%s;body=%s;method=%s;svc=%s",
-				kind, p["tok"], req.Header.Get("X-Tok"), v.Tok, c.Param("route"), c.URLPath("user", "tok", v.Tok), p["n"], p["rest"], body, req.Method, nm.Name())
+			// a named route with an optional segment, built with and without it by different requests
+			url2 := c.URLPath("opt")
+			if len(v.Tok)%2 == 0 || strings.HasSuffix(v.Tok, "1") || strings.HasSuffix(v.Tok, "a") {
+				url2 = c.URLPath("opt", "withOptional", "true")
+			}
+			out := fmt.Sprintf("kind=%s;tok=%s;hdr=%s;inj=%s;route=%s;url=%s;n=%s;rest=%s;body=%s;method=%s;svc=%s;url2=%s",
+				kind, p["tok"], req.Header.Get("X-Tok"), v.Tok, c.Param("route"), c.URLPath("user", "tok", v.Tok), p["n"], p["rest"], body, req.Method, nm.Name(), url2)
 			s.perturb(v.Tok, 2)
 			_, _ = w.Write([]byte(out))
 		}
 		return []flamego.Handler{pass, final}
 	}
 	f.Get("/static/ping", echo("static")...)
-	f.Get("/opt/?tail", echo("optional")...)
+	f.Get("/opt/?tail", echo("optional")...).Name("opt")
 	f.Get("/u/{tok}", echo("placeholder")...).Name("user")
 	f.Get("/r/{tok: /[a-z0-9]+/}-{n: /[0-9]+/}", echo("regex")...)
 	f.Get("/m/{rest: **, capture: 3}/end", echo("matchall-capture")...)
